@@ -400,7 +400,7 @@ fn run_steps(steps: Vec<J>, sh: Rc<RefCell<Shared>>, start_ns: u64, s: &Suspende
                 }
             }
             "leave" => {
-                _ = co.running();
+                leave_syscall(co);
                 sh.borrow_mut().in_sys = None;
             }
             "work" => sim::cpu_work(a[1].u(), 100_000),
@@ -420,9 +420,17 @@ fn run_steps(steps: Vec<J>, sh: Rc<RefCell<Shared>>, start_ns: u64, s: &Suspende
     // like the facade of every hooked call: leave the syscall state before returning
     if let Some(co) = SchedulableCoroutine::current() {
         if matches!(co.state(), CoroutineState::Syscall(..)) {
-            _ = co.running();
+            leave_syscall(co);
         }
     }
+}
+
+/// What every hooked call does on its way out: a woken call goes back to Executing, then to Running.
+fn leave_syscall(co: &SchedulableCoroutine<'_>) {
+    if let CoroutineState::Syscall((), name, SyscallState::Callback | SyscallState::Timeout) = co.state() {
+        _ = co.syscall((), name, SyscallState::Executing);
+    }
+    _ = co.running();
 }
 
 fn body_life(plan: &J) {
